@@ -190,7 +190,11 @@ func childSeq(raw json.RawMessage, cio *core.ChildIO) (any, error) {
 			cio.Log(map[string]any{"part": "exhaustive", "from_index": idx})
 		}
 		n++
-		s.runCase(c, "X:"+shape(body, plan, false)+eofTag(eofLast))
+		if L <= 7 {
+			s.runCase(c, "X:"+shape(body, plan, false)+eofTag(eofLast))
+		} else {
+			s.runCase(c, fmt.Sprintf("Y%d:", L)+coarseShape(body, plan)+eofTag(eofLast))
+		}
 		s.count("exhaustive_plain_cases", 1)
 		if L <= in.ESMaxLen {
 			ce := *c
